@@ -83,6 +83,13 @@ def findings_c01():
                                                         "fin": {"e": "none"}}}),
                        {"e": "unit"}, UNIT),
                    var("v")]}}}
+    # F14: the filter of a loop mentions a variable that the loop body assigns: rejected ("No meaning for identifier")
+    counter = {"name": "cnt", "oname": "cnt", "ps": [], "pts": [], "rt": SI, "pure": False,
+               "body": {"e": "let", "x": "v", "t": SI, "v": lit(SI, 0), "body": {"e": "seq", "t": SI, "es": [
+                   {"e": "for", "x": "i", "lo": lit(SI, 1), "hi": lit(SI, 5), "filt": prim("si.lt", var("v"), lit(SI, 3)),
+                    "body": block({"e": "asg", "x": "v", "v": prim("si.add", var("v"), lit(SI, 1))})},
+                   var("v")]}}}
+    out.append(prog("F14_loop_filter_mentions_assigned_variable", [stmt(pr({"e": "call", "fi": 1, "args": []}))], funs=[counter]))
     out.append(prog("F12_payload_read_in_conditional_try", [
         stmt(pr({"e": "call", "fi": 2, "args": [lit(SI, 1)]})),
         stmt(pr({"e": "call", "fi": 2, "args": [lit(SI, 5)]}))],
